@@ -434,6 +434,47 @@ func c15Leaves(r gts.Region) []gts.Segment {
 	return nil
 }
 
+// c15Head / c15Tail / c15ResLen: the 5' position, the 3' position and the number of residues of a
+// region, read off its RAW leaf coordinates (first leaf's head, last leaf's tail, sum of |t - h|) —
+// never through Region.Head / Tail / Len, which are the methods the commands under test call
+// (cmd/gts insert, infix, split, rotate: Head / Tail; extract: Len).
+func c15Head(x gts.Region) int {
+	if lv := c15Leaves(x); len(lv) > 0 {
+		return lv[0][0]
+	}
+	return 0
+}
+
+func c15Tail(x gts.Region) int {
+	if lv := c15Leaves(x); len(lv) > 0 {
+		return lv[len(lv)-1][1]
+	}
+	return 0
+}
+
+func c15ResLen(x gts.Region) int {
+	n := 0
+	for _, s := range c15Leaves(x) {
+		if s[1] < s[0] {
+			n += s[0] - s[1]
+		} else {
+			n += s[1] - s[0]
+		}
+	}
+	return n
+}
+
+// c15CompByte: the complement of one residue letter, from a table of its own (IUPAC pairs, case kept;
+// anything else unchanged) — not gts.Complement, which Segment.Locate calls for a backward leaf
+func c15CompByte(b byte) byte {
+	const from = "ACGTURYKMBDHVacgturykmbdhv"
+	const to = "TGCAAYRMKVHDBtgcaayrmkvhdb"
+	if i := strings.IndexByte(from, b); i >= 0 {
+		return to[i]
+	}
+	return b
+}
+
 // c15Mask: positions covered by some located region
 func c15Mask(rr gts.Regions, L int) []bool {
 	m := make([]bool, L)
@@ -865,7 +906,7 @@ func c15Oracle(r *Run, c c15Case, line string, res c15Result) {
 	case "insert", "infix":
 		count := make([]int, L+1)
 		for _, x := range rr {
-			count[x.Head()]++
+			count[c15Head(x)]++
 		}
 		var want []byte
 		for p := 0; p <= L; p++ {
@@ -888,7 +929,7 @@ func c15Oracle(r *Run, c c15Case, line string, res c15Result) {
 		} else {
 			ok := false
 			for _, x := range rr {
-				if bytes.Equal(got, c15Rotation(in, x.Head())) || bytes.Equal(got, c15Rotation(in, x.Tail())) {
+				if bytes.Equal(got, c15Rotation(in, c15Head(x))) || bytes.Equal(got, c15Rotation(in, c15Tail(x))) {
 					ok = true
 				}
 			}
@@ -907,7 +948,7 @@ func c15Oracle(r *Run, c c15Case, line string, res c15Result) {
 	case "rotate":
 		want := in
 		if len(rr) > 0 {
-			want = c15Rotation(in, rr[0].Head())
+			want = c15Rotation(in, c15Head(rr[0]))
 		}
 		if len(outs) != 1 || !bytes.Equal(outs[0].Bytes(), want) {
 			fail("rotate brings the first located position to index 0", c15BytesOf(outs), string(want), "")
@@ -920,17 +961,32 @@ func c15Oracle(r *Run, c c15Case, line string, res c15Result) {
 			return
 		}
 		regs := c15ExtractRegions(c, L)
+		// the expected residues of EVERY region are read off the raw leaf coordinates (c15RegionView: leaf by
+		// leaf, a backward leaf downwards and complemented; a position before the origin of a circular record
+		// off the circle, positions mod L: Gts.C15.extract_wrap_segment_bytes) — never through Region.Locate,
+		// the call `gts extract` itself makes
 		var want []string
 		for _, x := range regs {
-			want = append(want, string(x.Locate(copySeq(c.seq)).Bytes()))
+			D, _ := c15RegionView(x, L)
+			w := make([]byte, len(D))
+			for k, p := range D {
+				if p.x < 0 || p.x >= L {
+					// not an in-range locator (the generators do not send one): nothing is stated
+					r.count("guarded/extract-leaf-outside-the-record")
+					return
+				}
+				w[k] = in[p.x]
+				if p.rev {
+					w[k] = c15CompByte(in[p.x])
+				}
+			}
+			want = append(want, string(w))
 		}
 		var got []string
 		for _, o := range outs {
 			got = append(got, string(o.Bytes()))
 		}
 		if c.wrap {
-			// stated without Region.Locate: the residues of every leaf read off the CIRCLE (positions mod L), a
-			// backward leaf downwards and complemented (Gts.C15.extract_wrap_segment_bytes)
 			r.count("extract-circular/cases")
 			for i, x := range regs {
 				kinds := map[string]bool{}
@@ -943,17 +999,9 @@ func c15Oracle(r *Run, c c15Case, line string, res c15Result) {
 				if len(c15Leaves(x)) > 1 && (kinds["wrap"] || kinds["shifted"]) {
 					r.count("extract-circular/composite-region-with-a-leaf-before-the-origin")
 				}
-				D, _ := c15RegionView(x, L)
-				w := make([]byte, len(D))
-				for k, p := range D {
-					w[k] = in[p.x]
-					if p.rev {
-						w[k] = gts.Complement(gts.New(nil, nil, []byte{in[p.x]})).Bytes()[0]
-					}
-				}
-				if i < len(want) && string(w) != want[i] {
+				if i < len(want) && i < len(got) && len(got) == len(want) && got[i] != want[i] && (kinds["wrap"] || kinds["shifted"]) {
 					fail("extract on a circular record: a region that reaches before the origin is read off the circle (positions mod L; backward leaves reverse-complemented)",
-						want[i], string(w), "")
+						got[i], want[i], "")
 					return
 				}
 			}
@@ -981,9 +1029,9 @@ func c15Cuts(rr gts.Regions) []int {
 	seen := map[int]bool{}
 	var cuts []int
 	for _, x := range rr {
-		cut := x.Head()
-		if x.Tail() < cut {
-			cut = x.Tail()
+		cut := c15Head(x)
+		if t := c15Tail(x); t < cut {
+			cut = t
 		}
 		if !seen[cut] {
 			seen[cut] = true
@@ -1055,7 +1103,7 @@ func c15ExtractRegions(c c15Case, L int) []gts.Region {
 	}
 	var out []gts.Region
 	for _, x := range all {
-		if len(all) == 1 || x.Len() != L {
+		if len(all) == 1 || c15ResLen(x) != L {
 			out = append(out, x)
 		}
 	}
